@@ -1,6 +1,7 @@
 package main
 
 import (
+	"bufio"
 	"bytes"
 	"encoding/json"
 	"fmt"
@@ -10,7 +11,13 @@ import (
 	"strings"
 	"sync"
 
+	"github.com/goblimey/go-ntrip/apps/appcore"
+	"github.com/goblimey/go-ntrip/jsonconfig"
 	"github.com/goblimey/go-ntrip/rtcm/handler"
+	"github.com/goblimey/go-ntrip/rtcm/type1005"
+	"github.com/goblimey/go-ntrip/rtcm/type1006"
+	msm4msg "github.com/goblimey/go-ntrip/rtcm/type_msm4/message"
+	msm7msg "github.com/goblimey/go-ntrip/rtcm/type_msm7/message"
 
 	"verifharness/child"
 	"verifharness/gen"
@@ -128,13 +135,25 @@ func diffText(a, b string) string {
 
 // checkAgainstCanon compares one processing of pool frame i with its canonical result.
 func checkAgainstCanon(c *child.Ctx, cj []byte, cn *[2]canon, i int, li int, m *handler.Message, where string) {
+	checkAgainstCanonX(c, cj, cn, i, li, m, where, false)
+}
+
+// checkAgainstCanonX with alreadyDecoded=true looks at the decoded form the message
+// already holds instead of decoding it again.
+func checkAgainstCanonX(c *child.Ctx, cj []byte, cn *[2]canon, i int, li int, m *handler.Message, where string, alreadyDecoded bool) {
 	want := &cn[li]
 	if m == nil {
 		c.Violate("differs-from-canonical", fmt.Sprintf("%s: frame %d gave no message", where, i), cj)
 		return
 	}
 	before := ref.Hash64(m.RawData)
-	r, t := observe(m)
+	var r interface{}
+	var t string
+	if alreadyDecoded {
+		r, t = m.Readable, stripTime(m.String(), m)
+	} else {
+		r, t = observe(m)
+	}
 	if m.MessageType != want.typ {
 		c.Violate("differs-from-canonical", fmt.Sprintf("%s: frame %d has type %d, processed first by a fresh handler it has type %d", where, i, m.MessageType, want.typ), cj)
 		return
@@ -212,14 +231,19 @@ func streamAgainstCanon(c *child.Ctx, cj []byte, pool [][]byte, cn [][2]canon, o
 		c.Violate("differs-from-canonical", fmt.Sprintf("%s: %d frames in, %d messages out", where, len(idx), len(msgs)), cj)
 		return
 	}
+	// decode every message first, look at the results only afterwards: a decoded
+	// result must not change because other frames were decoded after it
+	for j := range msgs {
+		msgs[j].LogLevel = lvl
+		handler.Analyse(&msgs[j])
+	}
 	for j := range msgs {
 		if !bytes.Equal(msgs[j].RawData, pool[idx[j]]) {
 			c.Violate("raw-bytes-changed-after-delivery", fmt.Sprintf("%s: message %d no longer holds the bytes of its frame once later frames have been scanned: %s, frame was %s",
 				where, j, clip(hexs(msgs[j].RawData)), clip(hexs(pool[idx[j]]))), cj)
 			return
 		}
-		msgs[j].LogLevel = lvl
-		checkAgainstCanon(c, cj, &cn[idx[j]], idx[j], li, &msgs[j], fmt.Sprintf("%s, message %d, level %v", where, j, lvl))
+		checkAgainstCanonX(c, cj, &cn[idx[j]], idx[j], li, &msgs[j], fmt.Sprintf("%s, message %d (decoded before the later ones), level %v", where, j, lvl), true)
 		if c.NViolations() > 0 {
 			return
 		}
@@ -351,12 +375,121 @@ func execC15Concurrent(c *child.Ctx, k detCase, cj []byte, pool [][]byte, cn [][
 	c.Count("concurrent_displays", int64(k.Handlers*concSteps*k.Consumers))
 }
 
+// scribble overwrites the decoded form a consumer holds, as a consumer is free to do
+// with its own copy.
+func scribble(readable interface{}) {
+	switch r := readable.(type) {
+	case *type1005.Message:
+		r.StationID ^= 0xfff
+		r.AntennaRefX, r.AntennaRefY = -1, 1
+	case *type1006.Message:
+		r.StationID ^= 0xfff
+		r.AntennaRefZ, r.AntennaHeight = -2, 7
+	case *msm4msg.Message:
+		if r.Header != nil {
+			r.Header.StationID ^= 0xfff
+			r.Header.MultipleMessage = !r.Header.MultipleMessage
+		}
+		for i := range r.Satellites {
+			r.Satellites[i].RangeWholeMillis = 77
+		}
+		for i := range r.Signals {
+			for j := range r.Signals[i] {
+				r.Signals[i][j].RangeDelta = 12345
+			}
+		}
+	case *msm7msg.Message:
+		if r.Header != nil {
+			r.Header.StationID ^= 0xfff
+			r.Header.MultipleMessage = !r.Header.MultipleMessage
+		}
+		for i := range r.Satellites {
+			r.Satellites[i].RangeWholeMillis = 77
+		}
+		for i := range r.Signals {
+			for j := range r.Signals[i] {
+				r.Signals[i][j].RangeDelta = 12345
+			}
+		}
+	}
+}
+
+// execC15FanOut runs frames through the real reader -> framing -> fan-out pipeline
+// with three consumers: each sets the log level it wants on its own copy, one of
+// them overwrites the decoded form of its copy after displaying it; every consumer's
+// decoded fields and text must still equal the canonical result for its level.
+func execC15FanOut(c *child.Ctx, k detCase, cj []byte, pool [][]byte, cn [][2]canon) {
+	if k.Procs > 0 {
+		runtime.GOMAXPROCS(k.Procs)
+	}
+	var all []byte
+	var idx []int
+	for _, i := range k.Order {
+		if i >= 0 && i < len(pool) {
+			all = append(all, pool[i]...)
+			idx = append(idx, i)
+		}
+	}
+	levels := []int{1, 0, 1} // consumer 0 (scribbler) debug, consumer 1 info, consumer 2 debug
+	channels := make([]chan handler.Message, len(levels))
+	done := make([]chan struct{}, len(levels))
+	for ci := range channels {
+		channels[ci] = make(chan handler.Message, []int{0, 4, 1}[ci])
+		done[ci] = make(chan struct{})
+		go func(ci int) {
+			defer close(done[ci])
+			j := 0
+			for m := range channels[ci] {
+				tick()
+				if j >= len(idx) {
+					c.Violate("differs-from-canonical", "fan-out delivered more messages than frames were sent", cj)
+					return
+				}
+				cp := m
+				li := levels[ci]
+				cp.LogLevel = detLevels[li]
+				if ci == 1 {
+					runtime.Gosched() // let the scribbler go first when it can
+				}
+				func() {
+					defer func() {
+						if rr := recover(); rr != nil {
+							c.Violate("panic", fmt.Sprintf("panic in a fan-out consumer: %v", rr), cj)
+						}
+					}()
+					checkAgainstCanon(c, cj, &cn[idx[j]], idx[j], li, &cp, fmt.Sprintf("fan-out consumer %d (level %v), message %d", ci, detLevels[li], j))
+					if ci == 0 {
+						scribble(cp.Readable)
+					}
+				}()
+				j++
+			}
+		}(ci)
+	}
+	core := appcore.New(&jsonconfig.Config{}, channels)
+	ret := make(chan struct{})
+	go func() {
+		core.HandleMessagesUntilEOF(fixedStart, bufio.NewReader(bytes.NewReader(all)))
+		close(ret)
+	}()
+	waitOrHang(ret, caseWatchdog, "fan-out pipeline did not return")
+	for ci := range channels {
+		close(channels[ci])
+	}
+	for ci := range done {
+		waitOrHang(done[ci], caseWatchdog, "fan-out consumer did not finish")
+	}
+	c.Count("fan_out_messages_compared", int64(len(idx)*len(levels)))
+}
+
 func monC15(c *child.Ctx, replay json.RawMessage) {
 	run := func(k detCase, cj []byte) {
 		pool := framePool(k.PoolSeed)
 		cn := buildCanon(pool)
 		if k.Kind == "history" {
 			execC15History(c, k, cj, pool, cn)
+		} else if k.Kind == "fanout" {
+			execC15FanOut(c, k, cj, pool, cn)
 		} else {
 			execC15Concurrent(c, k, cj, pool, cn)
 		}
@@ -397,6 +530,16 @@ func monC15(c *child.Ctx, replay json.RawMessage) {
 		if i == 0 {
 			c.Sample(map[string]interface{}{"kind": "history", "pool_size": len(pool), "order_prefix": k.Order[:20]})
 		}
+	}
+	nf := c.Share(c.Pick(80, 3000))
+	for i := 0; i < nf; i++ {
+		k := detCase{PoolSeed: poolSeed, Kind: "fanout", Procs: []int{16, 2, 4, 1}[r.Intn(4)], Seed: r.Uint64() >> 1}
+		for j := 0; j < 40; j++ {
+			k.Order = append(k.Order, r.Intn(len(pool)))
+		}
+		cj := c.BeginV(k)
+		execC15FanOut(c, k, cj, pool, cn)
+		c.Eval(ref.Hash64(cj), true)
 	}
 	nc := c.Share(c.Pick(40, 1500))
 	for i := 0; i < nc; i++ {
